@@ -139,6 +139,31 @@ def streams(tier, rng, P, only=None, cases=None):
             pre = rng.choice(["l4 ", "l8 q100 ", "o4 l4 "])
             sa = pre + head + " " + " ".join(a); sb = pre + " ".join(b)
             cs.append(dict(req="compile2 %s %s" % (hx(sa), hx(sb)), src=sa, src2=sb, show="%s   vs   %s" % (sa, sb), key="ch%d" % i))
+        # a reservation runs on through Sub / tuplet / loop blocks that hold no plain command of its kind: every note takes its value in turn
+        for i in range(300 if big else 60):
+            x = rng.choice("vqtl")
+            def item(depth):
+                if depth > 0 and rng.random() < 0.35:
+                    inner = [item(depth - 1) for _ in range(rng.randrange(1, 4))]
+                    return (rng.choice(["Sub{%s}", "Div{%s}4", "{%s}2", "[1 %s]"]), inner)
+                return rng.choice("cdefgab")
+            items = [item(1) for _ in range(rng.randrange(2, 6))]
+            if not any(isinstance(it, tuple) for it in items): items.insert(1, ("Div{%s}4", ["d", "e"]))
+            def count(its): return sum(count(it[1]) if isinstance(it, tuple) else 1 for it in its)
+            nn = count(items)
+            vals = [{"v": rng.randint(1, 127), "q": rng.randint(1, 100), "t": rng.randint(0, 9), "l": rng.choice([6, 12, 24, 48, 96])}[x] for _ in range(nn)]
+            it_v = iter(vals)
+            def ra(its): return " ".join((it[0] % ra(it[1])) if isinstance(it, tuple) else it for it in its)
+            def rb(its):
+                out = []
+                for it in its:
+                    if isinstance(it, tuple): out.append(it[0] % rb(it[1]))
+                    else:
+                        v_ = next(it_v)
+                        out.append({"v": "%s,,%d", "q": "%s,%d", "t": "%s,,,%d", "l": "%s%%%d"}[x] % (it, v_))
+                return " ".join(out)
+            sa = "l4 %s.onNote(%s) %s" % (x, ",".join(map(str, vals)), ra(items)); sb = "l4 " + rb(items)
+            cs.append(dict(req="compile2 %s %s" % (hx(sa), hx(sb)), src=sa, src2=sb, show="%s   vs   %s" % (sa, sb), key="thru%d" % i, thru=True))
         # a plain command inside Sub{ } cancels the reservation for good: the notes after the block are those of the program without it
         for i in range(300 if big else 60):
             x = rng.choice("vqt")
@@ -155,6 +180,7 @@ def streams(tier, rng, P, only=None, cases=None):
         st, f = impl
         if st != "ok": return ("violation", "reservation program did not compile normally: " + st)
         if f["bin1"] != f["bin2"]:
+            if c.get("thru"): return ("violation", "a reservation does not run on through a block: %s vs %s" % (c["src"][:120], c["src2"][:120]))
             if c.get("cancel"): return ("violation", "a reservation cancelled by a plain command inside a block still acts after the block: %s vs %s" % (c["src"][:120], c["src2"][:120]))
             return ("violation", "a reserved velocity list over chords is not the program with the velocities written at the notes: %s vs %s" % (c["src"][:120], c["src2"][:120]))
         return None
